@@ -170,6 +170,23 @@ func tagsOf(steps []step, extra ...string) string {
 			set[[]string{"raw-garbage", "raw-scmp-request", "raw-scmp-other"}[s.a%3]] = true
 		case kNTS:
 			nt = true
+			if s.a == 14 {
+				_, idLen, np, phLen := sizedParams(s.data)
+				switch n := sizedLen(idLen, np, phLen); {
+				case n > 2048:
+					set["nts-size-over-buffer"] = true
+				case n > 1024:
+					set["nts-size-over-1024"] = true
+				case n >= 1016:
+					set["nts-size-1016-1024"] = true
+				default:
+					set["nts-size-below-1016"] = true
+				}
+				if len(s.data) > 0 && wfFirst(s.data[0]) && sizedLen(idLen, np, phLen) <= 1024 {
+					set["ntsvalid"] = true
+				}
+				break
+			}
 			if s.a == 12 {
 				set["nts-older-key"] = true
 			}
@@ -527,8 +544,11 @@ func genHistory(r *lib.Rng, n int, withHdr bool) []step {
 		case k == 9 && !withHdr:
 			s.k, s.data = kBurst, genBurst(r)
 		case k < 5:
-			s.k, s.a = kNTS, int64(lib.Pick(r, 0, 0, 0, 12, 1, 2, 3, 4, 5, 6, 7, 8, 9, 10, 11, 12, 13))
+			s.k, s.a = kNTS, int64(lib.Pick(r, 0, 0, 0, 12, 1, 2, 3, 4, 5, 6, 7, 8, 9, 10, 11, 12, 13, 14))
 			s.data = []byte{firstByte(r)}
+			if s.a == 14 {
+				s.data = []byte{firstByte(r), byte(lib.Pick(r, 32, 36, 40, 64)), byte(lib.Pick(r, 0, 3, 6, 6, 7)), 0, 124}
+			}
 		default:
 			s.k = kLiteral
 			s.data, _ = genPayload(r)
@@ -593,6 +613,57 @@ func genNTSThenPlain(r *lib.Rng, withHdr bool, maxOthers int) []step {
 	}
 	add(step{sender: a, k: kLiteral, data: plain()}, true)
 	return steps
+}
+
+// sizedSteps: intact NTS requests of total length total (a multiple of 4, at least 256) in
+// several shapes: one placeholder that makes up the length (identifier 32..64 bytes), and,
+// where the length allows it, the shapes of a real client (36-byte identifier with six
+// 124-byte placeholders is exactly 1024).
+func sizedSteps(r *lib.Rng, total int, withHdr bool) [][]step {
+	var out [][]step
+	mk := func(idLen, np, phLen int) {
+		if sizedLen(idLen, np, phLen) != total || phLen < 0 || phLen > 4000 {
+			return
+		}
+		s := step{sender: r.Intn(nSocks), k: kNTS, a: 14,
+			data: []byte{byte(lib.Pick(r, 0x23, 0x23, 0xe3, 0x1b)), byte(idLen), byte(np), byte(phLen >> 8), byte(phLen)}}
+		if withHdr {
+			s.hdr = genHdr(r)
+			s.hdr.fwd, s.hdr.spao = 0, 0
+			if s.hdr.underlay == endhostPort && s.hdr.udpDst != endhostPort {
+				s.hdr.udpDst = scionPort
+			}
+		}
+		out = append(out, []step{s})
+	}
+	for _, idLen := range []int{32, 33, 36, 48, 64} {
+		pad := (idLen + 3) &^ 3
+		mk(idLen, 1, total-224-pad)
+	}
+	for np := 0; np <= 7; np++ {
+		for _, idLen := range []int{32, 36, 40, 44, 64} {
+			mk(idLen, np, 124)
+		}
+	}
+	return out
+}
+
+func sizedTotals(thorough bool) []int {
+	var ts []int
+	step := 64
+	if thorough {
+		step = 4
+	}
+	for t := 256; t < 960; t += step {
+		ts = append(ts, t)
+	}
+	for t := 960; t <= 1100; t += 4 { // every length around nts.MaxPacketLen
+		ts = append(ts, t)
+	}
+	for t := 1104; t <= 2060; t += step {
+		ts = append(ts, t)
+	}
+	return append(ts, 2040, 2044, 2048, 2052, 2056)
 }
 
 // genRaw: datagrams for the SCION ports that are no SCION/UDP packets: garbage of many
@@ -810,6 +881,12 @@ func child(a lib.Args) {
 			}
 		}
 	}
+	// 4c. intact NTS requests of every total length, in particular around nts.MaxPacketLen
+	for _, total := range sizedTotals(thorough) {
+		for _, steps := range sizedSteps(r, total, false) {
+			d.runIP(tagsOf(steps, "nts", "nts-size"), steps, r)
+		}
+	}
 	// 5. histories
 	nHist := 1000
 	if thorough {
@@ -864,6 +941,11 @@ func child(a lib.Args) {
 				steps := []step{{sender: r.Intn(nSocks), k: kNTS, a: v, data: []byte{b0}, hdr: genHdr(r)}}
 				d.runSCION(tagsOf(steps, "nts"), steps, r)
 			}
+		}
+	}
+	for _, total := range sizedTotals(thorough) {
+		for _, steps := range sizedSteps(r, total, true) {
+			d.runSCION(tagsOf(steps, "nts", "nts-size"), steps, r)
 		}
 	}
 	// garbage and SCMP on both ports of the SCION listener
@@ -929,6 +1011,9 @@ func child(a lib.Args) {
 func (d *drv) finish() {
 	if d.lost {
 		note("a sentinel request went unanswered; stopped driving")
+	}
+	if d.tooManyRetries() {
+		note("too many sentinels had to be sent again; stopped driving")
 	}
 	if d.nRetried > 0 {
 		note(fmt.Sprintf("%d sentinels were sent more than once before they were answered", d.nRetried))
